@@ -12,11 +12,11 @@ import (
 
 func init() {
 	register(&PropRules{
-		ID: "C18",
+		ID:      "C18",
 		Explain: "Configuration loading and reload — structural part: (C18.1) strict decoding: KnownFields(true) is called on the decoder before Decode, the decoded file is the configfile parameter and a decode error is returned; (C18.2) validation guards: fromConfig returns nil only under BaseDir != \"\", and every loop iteration that registers a parameter set has ID != 0, exactly one algorithm block, and the hasher constructor's err == nil; after the loop Default == 0 is accepted only with no sets and Default != 0 only if that set exists; (C18.3) accepted ⇒ usable: every parameter the KDF panics on (guards read from the dependency's SSA: argon2 time<1, threads<1; plus the hand-derived keyLen<1) is excluded by the hasher constructor on every accepting path, and hashers are constructed only by their constructors; (C18.4) reload is all-or-nothing: s.dir is replaced only under NewDirFromConfig(s.configfile) err==nil ∧ newdir.Check()==nil and by that very object; the fields of a Dir are written only while it is being constructed (NewDir, NewDirFromConfig, fromConfig).",
-		Undec: []string{"exactness over all YAML documents (the decoder itself is trusted)", "memory exhaustion for huge cost/memory values", "signal delivery and in-flight requests at run time (the swap being inside the dispatcher is C11.4)"},
-		Run:   runC18,
-		Floors: map[string]int{"C18.1": 1, "C18.2": 3, "C18.3": 4, "C18.4": 2},
+		Undec:   []string{"exactness over all YAML documents (the decoder itself is trusted)", "memory exhaustion for huge cost/memory values", "signal delivery and in-flight requests at run time (the swap being inside the dispatcher is C11.4)"},
+		Run:     runC18,
+		Floors:  map[string]int{"C18.1": 1, "C18.2": 3, "C18.3": 4, "C18.4": 2},
 	})
 }
 
@@ -110,7 +110,9 @@ func c182(c *an.Ctx, p *an.Prog) {
 			}
 			return false
 		}
-		if !has(func(a an.Atom) bool { return a.Op == "!=" && a.B.IsConst(`""`) && strings.HasSuffix(a.A.K, ".BaseDir)") }) {
+		if !has(func(a an.Atom) bool {
+			return a.Op == "!=" && a.B.IsConst(`""`) && strings.HasSuffix(a.A.K, ".BaseDir)")
+		}) {
 			bad = append(bad, "accepts without BaseDir != \"\" on path "+s.BlockPath())
 		}
 		defZero := has(func(a an.Atom) bool { return a.Op == "==" && a.B.IsConst("0") && strings.HasSuffix(a.A.K, ".Default)") })
@@ -280,8 +282,8 @@ func panicPreconds(p *an.Prog, fn *ssa.Function, depth int) []precond {
 		})
 	}
 	// forwarding wrappers: fn calls g with its own parameters
-	for _, b := range fn.Blocks {
-		for _, in := range b.Instrs {
+	for _, in := range an.DeepInstrs(fn) {
+		{
 			call, ok := in.(*ssa.Call)
 			if !ok {
 				continue
@@ -329,8 +331,8 @@ func kdfPreconditions(c *an.Ctx, p *an.Prog, rule string) {
 	var reqs []req
 	nSites := 0
 	for _, fn := range storeFns(p) {
-		for _, b := range fn.Blocks {
-			for _, in := range b.Instrs {
+		for _, in := range an.DeepInstrs(fn) {
+			{
 				call, ok := in.(*ssa.Call)
 				if !ok {
 					continue
@@ -432,8 +434,8 @@ func kdfPreconditions(c *an.Ctx, p *an.Prog, rule string) {
 	{
 		var bad []string
 		for _, fn := range p.RepoFns {
-			for _, b := range fn.Blocks {
-				for _, in := range b.Instrs {
+			for _, in := range an.DeepInstrs(fn) {
+				{
 					switch x := in.(type) {
 					case *ssa.Alloc:
 						if isNamed(x.Type(), storePkg, "Argon2IDHasher") && fn != ctor {
@@ -564,8 +566,8 @@ func c184(c *an.Ctx, p *an.Prog) {
 		n := 0
 		allowed := map[string]bool{"NewDir": true, "NewDirFromConfig": true, "fromConfig": true}
 		for _, fn := range p.RepoFns {
-			for _, b := range fn.Blocks {
-				for _, in := range b.Instrs {
+			for _, in := range an.DeepInstrs(fn) {
+				{
 					switch x := in.(type) {
 					case *ssa.Store:
 						if fa, ok := x.Addr.(*ssa.FieldAddr); ok && isNamed(fa.X.Type(), storePkg, "Dir") {
